@@ -124,11 +124,15 @@ Skel(kind, a, b, c) ==
                                   <<H("[")>> \o b \o <<H("]")>>, NoElse, 1)>> \o c
     [] kind = "ifeach" -> a \o <<If(<<Br(IntL(1), <<Each("e", ArrL(<<IntL(1)>>), <<H("[")>> \o b \o <<H("]")>>, NoElse, 1)>>)>>,
                                     NoElse, 1)>> \o c
+    [] kind = "eachelse" -> a \o <<Each("e", ArrL(<<>>), <<H("never")>>, <<H("[")>> \o b \o <<H("]")>>, 1)>> \o c
+    [] kind = "forelse" -> a \o <<For(Assign("f", IntL(5), 1), Bin("<", Var("f"), IntL(2)), Post("++", Var("f")), <<H("never")>>,
+                                     <<H("[")>> \o b \o <<H("]")>>, 1)>> \o c
+    [] kind = "elseif" -> a \o <<If(<<Br(NilL, <<H("no")>>), Br(IntL(1), <<H("[")>> \o b \o <<H("]")>>)>>, <<H("no")>>, 1)>> \o c
     [] kind = "eachx" -> a \o <<Each("x", ArrL(<<IntL(7), IntL(8)>>), <<H("[")>> \o b \o <<H("]")>>, NoElse, 1)>> \o c
     [] kind = "eachxs" -> a \o <<Each("x", ArrL(<<StrL("p")>>), <<H("[")>> \o b \o <<H("]")>>, NoElse, 1)>> \o c
     [] kind = "forx" -> a \o <<For(Assign("x", IntL(0), 1), Bin("<", Var("x"), IntL(2)), Post("++", Var("x")),
                                    <<H("[")>> \o b \o <<H("]")>>, NoElse, 1)>> \o c
-Skels == {"flat", "if", "else", "each", "for", "ifeach", "eachx", "eachxs", "forx"}
+Skels == {"flat", "if", "else", "elseif", "each", "for", "eachelse", "forelse", "ifeach", "eachx", "eachxs", "forx"}
 DataSets == {<<>>, <<[n |-> "x", v |-> I(4)]>>, <<[n |-> "x", v |-> S("d")]>>, <<[n |-> "y", v |-> I(6)], [n |-> "x", v |-> B(FALSE)]>>}
 ScopeProgsOf(As, Cs) == {[p |-> Skel(k, a, b \o b2, c \o Rd("x")), d |-> d] :
                  k \in Skels, a \in As, b \in OpsXY, b2 \in {Rd("x"), <<>>}, c \in Cs, d \in DataSets}
